@@ -2230,6 +2230,8 @@ def main(argv):
     if '--seed' in argv:
         seed = int(argv[argv.index('--seed') + 1])
     pids = [a for a in argv[1:] if a.upper().startswith('C') and a[1:].isdigit()] or sorted(srctie_specs.SPECS)
+    if len(pids) == len(srctie_specs.SPECS) and 'C02' in pids and 'C03' in pids:
+        pids = [p for p in pids if p != 'C03']      # C03 lists the C02 definitions again under its own tie names
     try:
         n = reject_tests() + reject_tests2() + reject_tests3()
         n += sum(m.reject_tests() for m in _ext_modules([p.upper() for p in pids]) if hasattr(m, 'reject_tests'))
